@@ -65,7 +65,7 @@ private def s0J : S0 → Json
 
 private def s1J : S1 → List Json
   | .s0 s => [s0J s]
-  | .ifc c cr _ cb body => Json.mkObj [("kind", "head"), ("text", strJ c), ("reads", strsJ' cr), ("writes", strsJ' cb)] :: body.map s0J
+  | .ifc c cr cw _ body => Json.mkObj [("kind", "head"), ("text", strJ c), ("reads", strsJ' cr), ("writes", strsJ' cw)] :: body.map s0J
 
 private def s2J : S2 → List Json
   | .s1 s => s1J s
